@@ -84,22 +84,23 @@ DROP_TABLE = {
         (1, 'the consuming stream is gone (Weak::upgrade failed): the item is discarded and Err returned'),
     ('crux_core::capability::CommandSpawner::spawn::{closure#0}', 'crux_core::command::Command<Effect, Event>'):
         (1, 'the hosted command is dropped after its stream ended (end of the forwarding task)'),
-    ('crux_core::command::context::CommandContext::request_from_shell::{closure#0}',
-     'core::result::Result<(), futures_channel::mpsc::TrySendError<<Op as crux_core::capability::Operation>::Output>>'):
-        (1, 'the awaiting task was cancelled (receiver gone): a late response is discarded, documented `let _ =`'),
-    ('crux_core::command::context::CommandContext::stream_from_shell::{closure#0}::{closure#0}',
-     'futures_channel::mpsc::TrySendError<<Op as crux_core::capability::Operation>::Output>'):
-        (1, 'the stream consumer is gone: the item is discarded and the resolve closure reports Err'),
-    ('<crux_core::command::stream::CommandSink<Effect, Event> as futures_sink::Sink<crux_core::command::stream::CommandOutput<Effect, Event>>>::start_send::{closure#0}',
-     'crossbeam_channel::err::SendError<Effect>'):
-        (1, 'the host\'s effect receiver is gone: CannotSendEffect is returned'),
-    ('<crux_core::command::stream::CommandSink<Effect, Event> as futures_sink::Sink<crux_core::command::stream::CommandOutput<Effect, Event>>>::start_send::{closure#1}',
-     'crossbeam_channel::err::SendError<Event>'):
-        (1, 'the host\'s event receiver is gone: CannotSendEvent is returned'),
     ('<crux_core::command::context::ShellStream<T> as futures_core::stream::Stream>::poll_next',
      'core::task::poll::Poll<core::option::Option<T>>'):
         (1, 'poll result asserted to be Pending before the request was sent (nothing can have been delivered yet)'),
 }
+# the error of a failed channel send carries the value that could not be sent; where it may be let go, by the function the code belongs to
+# (whatever closure, match arm or `map_err` it sits in): (function, payload) -> (max count, reason)
+FAILED_SEND = {
+    ('crux_core::command::context::CommandContext::request_from_shell', '<Op as crux_core::capability::Operation>::Output'):
+        (1, 'the awaiting task was cancelled (receiver gone): a late response is discarded, documented `let _ =`'),
+    ('crux_core::command::context::CommandContext::stream_from_shell', '<Op as crux_core::capability::Operation>::Output'):
+        (1, 'the stream consumer is gone: the item is discarded and the resolve closure reports Err'),
+    ('<crux_core::command::stream::CommandSink<Effect, Event> as futures_sink::Sink<crux_core::command::stream::CommandOutput<Effect, Event>>>::start_send', 'Effect'):
+        (1, 'the host\'s effect receiver is gone: CannotSendEffect is returned'),
+    ('<crux_core::command::stream::CommandSink<Effect, Event> as futures_sink::Sink<crux_core::command::stream::CommandOutput<Effect, Event>>>::start_send', 'Event'):
+        (1, 'the host\'s event receiver is gone: CannotSendEvent is returned'),
+}
+_SEND_ERR = re.compile(r'^(?:core::result::Result<\(\), )?(?:futures_channel::mpsc::TrySendError|crossbeam_channel::err::SendError|crossbeam_channel::err::TrySendError)<(.*?)>+$')
 # value types carried by the generic shell futures
 EXTRA_BASE = {'T'}
 
@@ -158,6 +159,7 @@ def _iterator_exhausted(f, bb, ty):
 def check_linear(rep, crate, cfg, rid='R01.c', only=None):
     counts = {}
     table = {(_noidx(k[0]), k[1]): v for k, v in DROP_TABLE.items()}
+    table.update({(k[0], 'failed send of ' + k[1]): v for k, v in FAILED_SEND.items()})
     missing = set(f.path for f in crate.built) - set(f.path for f in crate.elab)
     if missing or crate.j.get('elab_stolen'):
         rep.bad(rid, 'elab-incomplete@' + cfg, 'drop-elaborated MIR is missing for %d bodies (%s ...): the linear rule would be blind there'
@@ -169,6 +171,9 @@ def check_linear(rep, crate, cfg, rid='R01.c', only=None):
             rep.ok(rid, '%s|drops exhausted %s@%s' % (_noidx(f.kpath), ty, cfg), 'the iterator is dropped only after next() returned None')
             continue
         key = (_noidx(f.kpath), ty)
+        m_ = _SEND_ERR.match(ty)
+        if m_ and (crate.host_root(f), m_.group(1)) in FAILED_SEND:
+            key = (crate.host_root(f), 'failed send of ' + m_.group(1))
         if f.blocks[bb].get('inl') and key not in table and re.search(r'(^|[<, (])[A-Z]\w*($|[>, )])', ty):
             # a drop inside a spliced generic helper names the helper's type parameters: match the rows of this function whose type has
             # the same shape with a concrete type in place of each parameter (`Option<T>` ~ `Option<<Op as Operation>::Output>`)
